@@ -104,7 +104,8 @@ def r2(ctx):
     demanded = set()
     for c in call_sites(bd, r"AutoTaskState::demand$"):
         e = sym.call_expr(c.term)
-        demanded |= {s[2] for s in expr_walk(e[2][0]) if s[0] == "field"}
+        a_ = strip_passthrough(e[2][0])
+        demanded |= ({a_[2]} if a_[0] == "field" else {s[2] for s in expr_walk(a_) if s[0] == "field"})
     ctx.check(demanded == {"clear_restart_iin", "integrity_scan", "enabled_unsolicited"}, "restart:demands", "a restart demands %s" % sorted(demanded), bd.where(line=bd.line), bad_detail="on_restart_iin demands %s, expected clear_restart_iin, integrity_scan, enabled_unsolicited" % sorted(demanded))
     ds_ = call_sites(bd, r"AutoTaskState::demand$")
     ctx.check(len({repr(ctx.guards_at(bd, c.idx)) for c in ds_}) <= 1, "restart:unconditional", "all three are demanded under one and the same condition", bd.where(line=bd.line))
